@@ -581,6 +581,10 @@ class Function(Value):
         return self.__name
 
     def ReplaceUses(self, uses):
+        # Earlier passes may have swapped instruction objects (argument
+        # accesses are re-created), so the recorded users can be stale
+        self.UpdateUses()
+
         for ref, new in uses.items():
             for instruction in self.__uses[ref]:
                 instruction.ReplaceUses(ref, new)
